@@ -89,7 +89,16 @@ func compare(ss *structSchema, e, o reflect.Value, p vpath, out *[]diff) {
 					*out = append(*out, diff{path: ap.keyed(k), kind: "map-key", exp: "key " + short(k), obs: "missing", expS: k, nfc: !norm.NFC.IsNormalString(k)})
 					continue
 				}
+				before := len(*out)
 				cmpPrim(ef.MapIndex(kv), ov, ap.keyed(k), elemKindName("map", a.elem), out)
+				if len(*out) > before {
+					// another generated key with the same NFC form has overwritten this entry
+					for _, g := range keys {
+						if g != k && norm.NFC.String(g) == k {
+							(*out)[before].nfc = true
+						}
+					}
+				}
 			}
 			if !of.IsNil() {
 				var extra []string
